@@ -8,3 +8,5 @@ open LhasaV.Props.C19
 #print axioms timestamp_recent
 #print axioms timestamp_old
 #print axioms selection_spec
+#print axioms listing_of_archive
+#print axioms total_line
